@@ -582,6 +582,34 @@ func (c *Check) ruleRouterPairing(fRequests, fResp *types.Var) {
 			c.Decide(ok && len(drains) > 0, "R8", "client.(*RemoteClient).runRequests#registrations-drained-before-routing", s.Pos(), "must-pass-through", w,
 				"queued registrations are consumed (non-blocking) before a response is routed", "a response can be routed while its request is still waiting in the registration channel (select picks ready cases at random): the response is dropped and the call times out although it was answered")
 		}
+		// the drain is attempted at least once: entering the drain loop from outside, the routing call is
+		// not reachable without executing the non-blocking receive (path facts: the loop condition's
+		// initial value is followed along the entry edge)
+		for _, s := range callsTo(fn, "(*client.RemoteClient).handleRequestResponse") {
+			for _, d := range drains {
+				hd := loopHeaderOf(d.Block())
+				if hd == nil {
+					continue
+				}
+				body := loopBody(hd)
+				skip := false
+				var wit []string
+				for _, p := range hd.Preds {
+					if body[p] {
+						continue
+					}
+					if hd == d.Block() {
+						continue // the receive is the first thing the loop does
+					}
+					if r, path := reachFromNode(mkNode(p, hd), s.Instr.Block(), nil, map[*ssa.BasicBlock]bool{d.Block(): true}); r {
+						skip = true
+						wit = pathWitness(fn, path)
+					}
+				}
+				c.Decide(!skip, "R8", "client.(*RemoteClient).runRequests#drain-attempted-before-routing", s.Pos(), "path-feasibility", wit,
+					"the drain loop is entered at least once before a response is routed", "the loop that consumes queued registrations is skipped on entry (its condition starts false): a response can be routed while its request is still waiting in the registration channel, so it is dropped and the call times out")
+			}
+		}
 	}
 }
 
